@@ -344,6 +344,17 @@ def run_one(ctl: explorer.Ctl, cfg: Dict[str, Any]) -> Dict[str, Any]:
 
 
 # ---------------------------------------------------------------------------
+def _pick(part, cfgs, note=None):
+    """First, middle and last case of a part's enumeration, written out."""
+    out = []
+    for i in sorted({0, len(cfgs) // 2, len(cfgs) - 1}):
+        d = {"part": part, "index": i, "case": cfgs[i]}
+        if note:
+            d["note"] = note
+        out.append(d)
+    return out
+
+
 def _chunks(xs, n):
     return [xs[i:i + n] for i in range(0, len(xs), n)]
 
@@ -383,12 +394,14 @@ def run(tier: str, only=None) -> core.Result:
     cfgs.append({"part": "fn", "extras": True})
     out = explorer.explore(RUN, cfgs)
     sched.absorb(res, "i-sets-and-function", RUN, out, cfgs)
+    samples = _pick("i-sets-and-function", cfgs)
 
     # (ii) send_message x every code
     codes = all_codes()
     cfgs = [{"part": "sm", "code": c} for c in codes]
     out = explorer.explore(RUN, cfgs)
     sched.absorb(res, "ii-send_message-all-codes", RUN, out, cfgs)
+    samples += _pick("ii-send_message-all-codes", cfgs, note=f"each x {len(SHAPES)} shapes x 2 incoming routes")
 
     # (iii) every typed request helper
     hcodes = boundary_codes() if tier == "quick" else codes
@@ -408,6 +421,7 @@ def run(tier: str, only=None) -> core.Result:
                 cfgs.append({"part": "helper", "helper": h["name"], "rich": rich, "arm": arm, "codes": block})
     out = explorer.explore(RUN, cfgs)
     sched.absorb(res, "iii-helpers-error-answer", RUN, out, cfgs)
+    samples += _pick("iii-helpers-error-answer", cfgs, note=f"each code x {len(SHAPES)} shapes")
 
     # measured counts
     cnt: Dict[str, int] = {}
@@ -415,6 +429,7 @@ def run(tier: str, only=None) -> core.Result:
         for k, v in p["counters"].items():
             cnt[k] = cnt.get(k, 0) + v
     cov = res.coverage
+    cov["samples"] = samples  # chosen by position in the enumeration, so identical from run to run
     calls = cnt.get("sm_calls", 0) + cnt.get("helper_calls", 0) + cnt.get("baseline_calls", 0)
     cov["evaluations"] = cnt.get("fn_evaluations", 0) + calls
     cov["driven_calls"] = calls
